@@ -50,7 +50,7 @@ func verifLinuxIsChange(l string) bool {
 // VerifUnmanagedLinux: C06 for Linux.
 func VerifUnmanagedLinux() {
 	os.Setenv("SIMULATE_ROUTER", "sim") // scp is skipped, as in the repository's tests
-	host := vf.FixString(vf.Pick("reportedHostname", []string{"router", "other"}))
+	host := vf.FixString(vf.Pick("reportedHostname", verifHostnames))
 	issue := vf.Bool("markerInEtcIssue")
 	checkBanner := vf.Bool("checkbannerConfigured")
 	sc := verifLinuxScenario(host, issue)
